@@ -41,6 +41,12 @@ def gen(rng, tier):
         if k % 15 == 0:
             opts["sizes"] = [32767, 32768, 32769, 70000, 0, 1]
         t = gen_tree(rng, opts=opts)
+        if k % 6 == 1:
+            # the name of the root directory itself ("root") occurs again deeper, next to same-named siblings
+            lib = {"t": "D", "c": [[b"root".hex(), {"t": "D", "c": [[b"docs".hex(), {"t": "D", "c": []}]]}],
+                                   [b"docs".hex(), {"t": "D", "c": [[b"f".hex(), {"t": "R", "d": b"x".hex(), "m": 0o644}]]}]]}
+            if b"lib".hex() not in [n for n, _ in t["c"]]:
+                t["c"].append([b"lib".hex(), lib])
         cases.append({"tree": t, "seed": rng.randrange(10**6), "slashes": rng.choice([0, 0, 1, 3])})
     return cases
 
@@ -86,6 +92,17 @@ def impl(c):
             from swh.model import from_disk as _fd
             with shuffled_scandir(c["seed"] + 7):
                 res["root_ignore_empty"] = Directory.from_disk(path=root, path_filter=_fd.ignore_empty_directories).hash.hex()
+            # the same directory designated by a RELATIVE path (with and without trailing slash)
+            cwd = os.getcwd()
+            try:
+                os.chdir(os.path.dirname(root))
+                rel = os.path.basename(root)
+                res["relative_equal"] = (
+                    {hx(k): v for k, v in collect_ids(Directory.from_disk(path=rel)).items()} == res["ids"]
+                    and Directory.from_disk(path=rel + b"/" * c["slashes"], path_filter=_fd.ignore_empty_directories).hash.hex()
+                    == res["root_ignore_empty"])
+            finally:
+                os.chdir(cwd)
             res["shuffled_equal"] = all(o == res["ids"] for o in orders)
             if not res["shuffled_equal"]:
                 res["shuffled_ids"] = orders
@@ -130,6 +147,8 @@ def oracle(c, ires, mres):
     root = ires["ids"]["."]
     if root != mres["git_node_id"]:
         return "root id %s is not the git tree id %s of this tree (spec-level encoder with git's ordering rule)" % (root, mres["git_node_id"])
+    if not ires.get("relative_equal", True):
+        return "ids depend on whether the directory is given by an absolute or a relative path"
     if not ires["shuffled_equal"]:
         return "ids depend on the order in which the OS lists entries, or on trailing slashes"
     if ires["root_ignore_empty"] != mres["pruned_empty_id"]:
@@ -215,3 +234,124 @@ ANCHORS = [('swh/model/from_disk.py', 'mode_to_perms'),
            ('swh/model/from_disk.py', 'Directory.compute_hash'),
            ('swh/model/from_disk.py', 'Directory.to_model'),
            ('swh/model/merkle.py', 'MerkleNode.update_hash')]
+
+
+# most generated trees are too large for the executable SHA-1 under vm_compute: coq_cases gets every case and keeps the first
+# small ones (it shrinks the list it is given IN PLACE: the evidence's `n` is the number evaluated)
+COQ_SAMPLE = 1 << 30
+
+
+def coq_tree_bytes(t):
+    if t["t"] == "D":
+        return sum(len(n) // 2 + 30 + coq_tree_bytes(c) for n, c in t["c"])
+    return len(t.get("d") or t.get("x") or "") // 2
+
+
+def coq_from_disk(pid, chosen):
+    """shared by c06.py and c13.py (the two drivers are the same file).  chosen = [(case, request lines of the case)];
+    the Coq terms are built from the very request lines the driver receives; one checksum per case."""
+    from . import core
+    def nl(h):
+        return "[" + "; ".join("%d" % b for b in core.unhx(h or ".")) + "]%N"
+    def tree(t):
+        if t["t"] == "R":
+            return "Reg %s %d%%N" % (nl(t["d"]), t["m"])
+        if t["t"] == "L":
+            return "Lnk %s" % nl(t["x"])
+        if t["t"] == "S":
+            return "Special %d%%N" % t["m"]
+        return "FDir [" + "; ".join("(%s, %s)" % (nl(n), tree(c)) for n, c in t["c"]) + "]"
+    def filt(f):
+        p = f.split(":")
+        if p[0] in ("all", "empty"):
+            return {"all": "FAll", "empty": "FEmpty"}[p[0]]
+        return "(FNamed [%s] %s)" % ("; ".join(nl(n) for n in p[2].split(",")) if p[2] else "", "true" if p[1] == "1" else "false")
+    def lim(s):
+        return "None" if s == "-" else "(Some %d%%N)" % int(s)
+    def term(rq):
+        w = rq.split(" ")
+        if w[0] == "ids":
+            return "ids_case (from_disk (fun _ l => %s) %s %s t)" % ("rev l" if w[3] == "rev" else "l", filt(w[1]), lim(w[2]))
+        if w[0] == "iterids":
+            return "iter_case (from_disk_iter %s %s %s t)" % ("lrev" if w[3] == "rev" else "lid", filt(w[1]), lim(w[2]))
+        if w[0] == "spec":
+            return "node_id sha1 t ++ git_node_id sha1 t ++ [if wf_fs t then 1%N else 0%N]"
+        if w[0] == "pruned":
+            p = w[1].split(":")
+            pr = "t" if p[0] == "all" else "(prune_empty t)" if p[0] == "empty" else \
+                "(prune_named [%s] %s t)" % ("; ".join(nl(n) for n in p[2].split(",")) if p[2] else "", "true" if p[1] == "1" else "false")
+            return "node_id sha1 %s" % pr
+        if w[0] == "export":
+            return "export_case (from_disk (fun _ l => l) %s %s t)" % (filt(w[1]), lim(w[2]))
+        raise ValueError(rq)
+    src = ("From Coq Require Import List NArith.\nFrom SWH.lib Require Import Bytes Sha1.\nFrom SWH.model Require Import Dir FromDisk FromDiskIter.\n"
+           "Import ListNotations.\n" + core.COQ_CHECKSUM + """
+Fixpoint all_nodes (prefix : list (list N)) (m : mtree) : list (list (list N) * mtree) :=
+  (prefix, m) :: match m with
+                 | MLeaf _ => []
+                 | MNode ks => (fix go (l : list (list N * mtree)) : list (list (list N) * mtree) :=
+                                  match l with [] => [] | (n, c) :: r => all_nodes (prefix ++ [n]) c ++ go r end) ks
+                 end.
+Definition join_path (p : list (list N)) : list N :=
+  match p with [] => [] | x :: r => x ++ concat (map (fun y => 47%N :: y) r) end.
+Definition show_ids (m : mtree) : list N :=
+  concat (map (fun pn : list (list N) * mtree => join_path (fst pn) ++ [370%N] ++ mt_id sha1 (snd pn) ++ [371%N]) (all_nodes [] m)).
+Definition ids_case (r : fd_result mtree) : list N := match r with FdOk m => 80%N :: show_ids m | FdSymlinkTooLarge => [81%N] end.
+Definition iter_case (r : it_result mtree) : list N := match r with
+  | ItOk m => 80%N :: show_ids m | ItSymlinkTooLarge => [81%N] | ItKeyError => [82%N] | ItAssert => [83%N] | ItOutOfFuel => [84%N] end.
+Definition export_case (r : fd_result mtree) : list N := match r with
+  | FdSymlinkTooLarge => [81%N]
+  | FdOk m => 80%N :: concat (map (fun x => match x with
+      | XDir i es => [85%N] ++ i ++ concat (map (fun e => e_target e ++ [372%N]) es) ++ [373%N]
+      | XContent i d => [86%N] ++ i ++ sha1 d ++ [N.of_nat (length d)]
+      | XSkipped i l => [87%N] ++ i ++ [l] end) (export sha1 m)) end.
+""" + "Definition cases : list (list (list N)) := [" +
+           ";\n ".join("(fun t : fsnode => [" + ";\n  ".join(term(r) for r in rqs) + "])\n  (" + tree(c["tree"]) + ")" for c, rqs in chosen)
+           + "].\nEval vm_compute in map (fun rs => cksum (map cksum rs)) cases.\n")
+    def hb(h):
+        return list(core.unhx(h))
+    def ids(r):
+        if not r.startswith("ok "):
+            return [{"err SymlinkTooLarge": 81, "err MODEL KeyError": 82, "err MODEL Assert": 83, "err MODEL OutOfFuel": 84}[r]]
+        out = [80]
+        for kv in r[3:].split(";"):
+            p, i = kv.split("=")
+            out += hb(p) + [370] + hb(i) + [371]
+        return out
+    def answer(rq, r):
+        k = rq.split(" ")[0]
+        if k in ("ids", "iterids"):
+            return ids(r)
+        w = r.split(" ")
+        assert w[0] == "ok" or k == "export", r
+        if k == "spec":
+            return hb(w[1]) + hb(w[2]) + [int(w[3])]
+        if k == "pruned":
+            return hb(w[1])
+        if r == "err SymlinkTooLarge":
+            return [81]
+        out = [80]
+        for item in ([] if w[1] == "." else w[1].split(";")):
+            p = item.split(":")
+            if p[0] == "D":
+                out += [85] + hb(p[1])
+                for tg in ([] if p[2] == "." else p[2].split(",")):
+                    out += hb(tg) + [372]
+                out += [373]
+            elif p[0] == "C":
+                out += [86] + hb(p[1]) + hb(p[2]) + [int(p[3])]
+            else:
+                out += [87] + hb(p[1]) + [int(p[2])]
+        return out
+    flat = [r for _, rqs in chosen for r in rqs]
+    resp = iter(core.run_driver(pid, flat))
+    exp = [core.py_cksum([core.py_cksum(answer(rq, next(resp))) for rq in rqs]) for _, rqs in chosen]
+    return src, exp
+
+
+def coq_cases(cases):
+    """from_disk (both listing orders, filters all / empty), from_disk_iter, node_id, git_node_id, wf_fs, prune_empty and mt_id
+    with H := Sha1.sha1 evaluated by vm_compute inside Coq vs the extracted driver, on small trees (extraction cross-check)"""
+    small = [c for c in cases if count_nodes(c["tree"]) <= 10 and coq_tree_bytes(c["tree"]) <= 400][:12]
+    cases[:] = small
+    return coq_from_disk(ID, [(c, requests(c)) for c in small])
